@@ -221,6 +221,9 @@ func (n *Namespace) add(c *serverConn, auth json.RawMessage) (*serverSocket, err
 
 	err = n.runMiddlewares(socket, handshake)
 	if err != nil {
+		// Nothing of a rejected socket must remain: a middleware (or the recovery
+		// of a session) might have made it join rooms.
+		socket.leaveAll()
 		return nil, err
 	}
 
